@@ -25,6 +25,12 @@ pub fn dispatch(cmd: &str, args: &Args) -> Option<i32> {
         "c10-pipe" => pipe(args),
         "c10-file" => one_file(args),
         "c10-growth" => growth(args),
+        "c10-synth" => {
+            // debugging: write the synthesised property list of one parameter
+            let text = synth_pl(args.num("param", 0u64), args.str("deep").is_some());
+            std::fs::write(args.req("out"), text).expect("write");
+            0
+        }
         _ => return None,
     })
 }
@@ -1394,7 +1400,7 @@ fn synth_pl(param: u64, deep: bool) -> String {
         for _ in 0..tables {
             s.push_str("(LIGTABLE\n");
             let rows = if deep && rng.chance(1, 400) {
-                *rng.pick(&[32_000usize, 32_510, 32_511, 33_000, 70_000])
+                *rng.pick(&[32_000usize, 32_510, 32_511, 33_000, 36_000])
             } else {
                 *rng.pick(&[0usize, 1, 2, 5, 20, 100, 300, 700])
             };
